@@ -1,5 +1,5 @@
 (* GENERATED on every run by harness/C18.py translate() with translate/pyruns2coq.py from
-   /tmp/tie-edges-wt/psiaudio/util.py - do not edit.  Vocabulary: coq/Runs/NumpyPrims.v.  Tie theorems: coq/Runs/ProofsTie.v. *)
+   /repo/psiaudio/util.py - do not edit.  Vocabulary: coq/Runs/NumpyPrims.v.  Tie theorems: coq/Runs/ProofsTie.v. *)
 From PV Require Import Common.ListX Runs.Model Runs.NumpyPrims.
 Open Scope Z_scope.
 
